@@ -562,6 +562,8 @@ func genC09(c *Ctx) {
 			return "", err
 		})
 	}
+	// a pairing that is skipped (keys cancelling on one message) at every position of the batches of pairings
+	genManyMessagesCancelling(c, "C09")
 }
 
 type kv[V any] struct {
